@@ -1,2 +1,5 @@
 import LadimProofs.Basic
 import LadimProofs.C05
+import LadimProofs.Laws
+import LadimProofs.C07
+import LadimProofs.C10
